@@ -167,8 +167,8 @@ func checkC10(c *Ctx) {
 	if v := c.Fn("x509", "(*Certificate).Verify"); v != nil {
 		fx := getFX(c)
 		allowed := map[string]string{
-			"(*x509.Certificate).buildChains|param#1":   "the memoisation map created by Verify for this call",
-			"(*x509.Certificate).Verify|param#1.Roots":    "assignment of the default system pool to the by-value options copy",
+			"(*x509.Certificate).buildChains|param#1":        "the memoisation map created by Verify for this call",
+			"(*x509.Certificate).Verify|param#1.Roots":       "assignment of the default system pool to the by-value options copy",
 			"(*x509.Certificate).systemVerify|param#1.Roots": "by-value options copy",
 		}
 		var fns []*ssa.Function
